@@ -28,7 +28,7 @@ def make_machine(mir_path=None):
 
 def run_cli(M, path, src):
     """run seed's `main` with argv = [seed, path] and the file content `src` (bytes, or a list of Int bytes).
-    returns (exit code, stdout bytes, stderr bytes); raises Panic / Unsupported / PathEnd"""
+    returns (exit code, stdout elements, stderr elements) -- see models.pieces / conc; raises Panic / Unsupported / PathEnd"""
     OUT['stdout'] = []; OUT['stderr'] = []
     ENV['args'] = ['seed', path]; ENV['files'] = {path: src}
     M.step_limit = M.steps + STEP_BUDGET
@@ -37,7 +37,11 @@ def run_cli(M, path, src):
         M.call('main', [])
     except Exit as e:
         code = e.code
-    return code, b''.join(OUT['stdout']), b''.join(OUT['stderr'])
+    return code, models.flat(OUT['stdout']), models.flat(OUT['stderr'])
+
+def conc(els):
+    """element list -> python bytes (must be concrete)"""
+    return bytes(e.v for e in els)
 
 def load_tests(repo=None):
     repo = repo or build.REPO
